@@ -119,4 +119,5 @@ func genMore(outDir string) {
 	genIncentives(outDir)
 	genGammMath(outDir)
 	genDet(outDir)
+	genExpr(outDir)
 }
